@@ -502,6 +502,20 @@ func (s *Sys) exec1(toks []string) string {
 				out[i] = int64(v)
 			}
 			return rInts(out)
+		case "davail":
+			// AvailableVersions of a tree object that was only constructed on the same database:
+			// nothing is cached, the range is discovered from the stored keys (skip-fast: the
+			// constructor and the query write nothing)
+			ft := iavl.NewMutableTree(s.store(), 0, true, iavl.NewNopLogger(), s.options()...)
+			av := ft.AvailableVersions()
+			if av == nil {
+				return "err"
+			}
+			out := make([]int64, len(av))
+			for i, v := range av {
+				out[i] = int64(v)
+			}
+			return rInts(out)
 		case "whash":
 			return rBytes(t.WorkingHash())
 		case "wver":
@@ -573,7 +587,10 @@ func (s *Sys) exec1(toks []string) string {
 			if toks[1] == "raw" {
 				return s.auditRaw()
 			}
-			return s.auditFast()
+			if toks[1] == "fastvals" { // label and values, without the entry versions
+				return s.auditFast(false)
+			}
+			return s.auditFast(true)
 		}
 		return "badop"
 	})
